@@ -297,9 +297,13 @@ def run(repo):
             e = _xl2(fi.node, e, defs=sdefs)
             if isinstance(orig, ast.Name) and isinstance(e, ast.Name):
                 e = orig                       # (kept by identity: the reaching definitions are keyed by node)
+            while isinstance(e, ast.Call) and call_name(e) in ('list', 'tuple') and len(e.args) == 1 and not e.keywords:
+                e = e.args[0]                  # list(range(n)) visits what range(n) visits
             t = ntext(e).replace('self.', '')
-            if t in ('range(num_scen)', 'range(0, num_scen)'):
+            if t in ('range(num_scen)', 'range(0, num_scen)', 'range(0, num_scen, 1)'):
                 return True
+            if t in ('range(len(drule_list))', 'range(len(var_ev_list))', 'range(len(ev_list))'):
+                return True                    # one entry per scenario: the list the loop indexes
             if isinstance(e, ast.Call) and call_name(e) == 'enumerate' and e.args:
                 return None            # over a per-scenario list: as long as that list is
             if isinstance(e, ast.Name) and depth < 3:
